@@ -13,6 +13,9 @@ def canon_value(v):
         return "t:-"
     if hasattr(v, "tm_year"):
         return "t:" + ",".join(str(x) for x in tuple(v))
+    if isinstance(v, list) and all(isinstance(x, dict) and all(isinstance(y, str) or y is None for y in dict.values(x)) for x in v):
+        # stage 3: the content list of an entry
+        return "l:[" + "|".join("(" + ",".join(sorted("%s=%s" % (enc(k), "~" if dict.__getitem__(x, k) is None else enc(dict.__getitem__(x, k))) for k in dict.keys(x))) + ")" for x in v) + "]"
     if isinstance(v, dict) and all(isinstance(x, str) or x is None for x in dict.values(v)):
         # attribute dicts and *_detail dicts (whose language may be None: "~")
         return "d:(" + ",".join(sorted("%s=%s" % (enc(k), "~" if dict.__getitem__(v, k) is None else enc(dict.__getitem__(v, k))) for k in dict.keys(v))) + ")"
@@ -146,17 +149,21 @@ def content_doc(rng):
             attrs += ' xml:lang="%s"' % rng.choice(["en", "en_US", "fr-CA", ""])
         if rng.random() < 0.08:
             attrs += ' xml:base="http://other.example/sub/"'
+        if name == "content" and rng.random() < 0.15:
+            attrs += ' src="%s"' % rng.choice(["http://example.org/full", "rel/full", ""])
         body = ("<![CDATA[%s]]>" % t) if (rng.random() < 0.2 and "]]>" not in t) else esc(t)
         return "<%s%s>%s</%s>" % (name, attrs, body, name)
     atom = rng.random() < 0.5
-    ns = ' xmlns:dc="http://purl.org/dc/elements/1.1/" xmlns:itunes="http://www.itunes.com/dtds/podcast-1.0.dtd" xmlns:fb="http://rssnamespace.org/feedburner/ext/1.0" xmlns:x="http://unknown.example/"'
-    feed_names = (["title", "subtitle", "rights", "tagline", "info", "dc:rights", "dc:title", "itunes:subtitle"] if atom else
-                  ["title", "copyright", "dc:rights", "itunes:subtitle", "fb:browserFriendly", "dc:title", "tagline"])
-    entry_names = ["title", "rights", "dc:rights", "dc:title", "itunes:subtitle", "x:other"] if atom else ["title", "dc:rights", "dc:title", "itunes:subtitle", "copyright", "x:other"]
+    ns = ' xmlns:dc="http://purl.org/dc/elements/1.1/" xmlns:itunes="http://www.itunes.com/dtds/podcast-1.0.dtd" xmlns:fb="http://rssnamespace.org/feedburner/ext/1.0" xmlns:x="http://unknown.example/" xmlns:cenc="http://purl.org/rss/1.0/modules/content/" xmlns:media="http://search.yahoo.com/mrss/"'
+    feed_names = (["title", "subtitle", "rights", "tagline", "info", "dc:rights", "dc:title", "itunes:subtitle", "summary", "dc:description"] if atom else
+                  ["title", "copyright", "dc:rights", "itunes:subtitle", "fb:browserFriendly", "dc:title", "tagline", "description", "itunes:summary", "dc:description"])
+    # stage 3: summary / description / content in every order (a second description becomes content; content before description; content:encoded)
+    entry_names = (["title", "rights", "dc:rights", "dc:title", "itunes:subtitle", "x:other", "summary", "content", "summary", "itunes:summary", "content", "media:description", "abstract"] if atom else
+                   ["title", "dc:rights", "dc:title", "itunes:subtitle", "copyright", "x:other", "description", "cenc:encoded", "description", "itunes:summary", "fullitem", "dc:description", "content", "abstract"])
     fmeta = "".join(el(n, atom) for n in rng.sample(feed_names, rng.randint(1, 4)))
     entries = ""
     for i in range(rng.randint(0, 3)):
-        inner = "".join(el(n, atom) for n in rng.sample(entry_names, rng.randint(1, 3)))
+        inner = "".join(el(n, atom) for n in rng.sample(entry_names, rng.randint(1, 4)))
         if rng.random() < 0.3:
             inner += el("title", atom)            # a second title in the same entry (title_depth)
         entries += ("<entry>%s</entry>" if atom else "<item>%s</item>") % inner
